@@ -83,7 +83,7 @@ int main(int argc, char **argv) {
         auto cyc = vg::all_simple_cycles(el);
         if (el.m() > max_m || el.m() < min_m) return;
         if (need_len) { bool lc = false; for (uint64_t c : cyc) if (__builtin_popcountll(c) >= need_len) lc = true; if (!lc) return; }
-        uint64_t nw = vg::ipow(alpha.size(), el.m());
+        uint64_t nw = vg::num_weightings(alpha, el.m());
         std::vector<double> w; vg::weighting(alpha, el.m(), 0, w); vb::Built<W> b(el, w);
         for (uint64_t s = start_sub; s < nw; ++s) { vg::weighting(alpha, el.m(), s, w); R.count(C_INPUTS); R.count(C_NONTRIV); run_case(R, cfg, el, w, cyc, dim, u, s, b); }
     };
@@ -91,7 +91,7 @@ int main(int argc, char **argv) {
     auto res = R.run(total_units, work, describe);
     double wall = vr::now_s() - t0;
     std::vector<std::string> samples;
-    for (uint64_t u : {total_units - 1, total_units / 2 + 3}) { vg::EdgeList el = unit_graph(u % total_units); samples.push_back(describe(u % total_units, vg::ipow(alpha.size(), el.m()) / 2 + 1, cfg.variants[0]).second); }
+    for (uint64_t u : {total_units - 1, total_units / 2 + 3}) { vg::EdgeList el = unit_graph(u % total_units); samples.push_back(describe(u % total_units, vg::num_weightings(alpha, el.m()) / 2 + 1, cfg.variants[0]).second); }
     FILE *o = A.has("out") ? fopen(A.get("out").c_str(), "w") : stdout;
     fprintf(o, "{\"harness\":\"inexact\",\"evaluations\":%" PRIu64 ",\"inputs\":%" PRIu64 ",\"distinct_nontrivial\":%" PRIu64 ",\"units_total\":%" PRIu64 ",\"units_done\":%" PRIu64
             ",\"capped\":%s,\"crashes\":%" PRIu64 ",\"hangs\":%" PRIu64 ",\"nviol\":%" PRIu64 ",\"wall_s\":%.3f,\n\"samples\":[",
